@@ -257,81 +257,188 @@ Definition item_ok (soft : bool) (it : item) : bool :=
 Definition stmt_ok (soft : bool) (st : list item) : bool :=
   negb (zlen st =? 0) && forallb (item_ok soft) st.
 
-(* lines that PRINT# / LINE INPUT# return unchanged *)
+(* lines that PRINT# / LINE INPUT# return unchanged (exact class).
+   Default mode: no CR, LF, 1A.  soft_linefeed mode: no 1A; a CR only directly after an LF (LF CR is not a line
+   end for TextFile.read_line), hence not as first byte; the last byte is not LF (it would hide the line end).
+   Both: at most 254 bytes (K24a). *)
 Definition lchar (c : Z) : bool := byteb c && negb (c =? CR) && negb (c =? EOFB).
+Fixpoint lseq_ok (p : Z) (l : list Z) : bool :=
+  match l with
+  | [] => true
+  | a :: t => byteb a && negb (a =? EOFB) && (negb (a =? CR) || (p =? LF)) && lseq_ok a t
+  end.
 Definition line_ok (soft : bool) (l : list Z) : bool :=
-  forallb lchar l && (zlen l <=? 254)
-  && (if soft then negb (last l NONE =? LF) else negb (memZ LF l)).
+  (zlen l <=? 254)
+  && (if soft then lseq_ok NONE l && negb (last l NONE =? LF) else forallb lchar l && negb (memZ LF l)).
+
+(* ------------------------------------------------------------------ writer with column and WIDTH
+   TextFileBase.write(s, can_break): a string that does not fit on the line is preceded by a line break (only
+   when width <> 255, not at column 1, and the string has no CR/LF of its own); printable bytes (>= 32) advance
+   the column, CR resets it, col-1 wraps as a byte *)
+Record wst := mkW { wbytes : list Z; wcol : Z; wwidth : Z }.
+
+Definition col_step (col c : Z) : Z :=
+  if c =? CR then 1 else if 32 <=? c then (if col + 1 =? 257 then 1 else col + 1) else col.
+Fixpoint first_width (s : list Z) : Z * bool :=
+  match s with
+  | [] => (0, false)
+  | c :: r => if (c =? CR) || (c =? LF) then (0, true)
+              else let (w, nl) := first_width r in ((if 32 <=? c then 1 else 0) + w, nl)
+  end.
+Definition put_bytes (w : wst) (s : list Z) : wst :=
+  mkW (wbytes w ++ s) (fold_left col_step s (wcol w)) (wwidth w).
+Definition wwrite (w : wst) (s : list Z) (can_break : bool) : wst :=
+  let (sw, nl) := first_width s in
+  let w1 := if can_break && negb (wwidth w =? 255) && negb (wcol w =? 1)
+               && (wwidth w <? wcol w - 1 + sw) && negb nl
+            then mkW (wbytes w ++ [CR; LF]) 1 (wwidth w)
+            else w in
+  put_bytes w1 s.
+Definition wwrite_line (w : wst) (s : list Z) : wst := wwrite w (s ++ [CR; LF]) true.
+
+(* PRINT#n, list of expressions (strings, or numbers given as " text ") separated by ; or , *)
+Inductive pelem := PV (s : list Z) | PSemi | PComma.
+(* Formatter._print_comma *)
+Definition print_comma (w : wst) : wst :=
+  let number_zones := Z.max 1 (wwidth w / 14) in
+  let next_zone := (wcol w - 1) / 14 + 1 in
+  if (number_zones <=? next_zone) && (14 <=? wwidth w) && negb (wwidth w =? 255)
+  then wwrite_line w []
+  else wwrite w (repeat SPACE (Z.to_nat (1 + 14 * next_zone - wcol w))) false.
+(* Formatter.format: a final value (or nothing at all) is followed by a line break *)
+Fixpoint pformat (w : wst) (es : list pelem) (nl : bool) : wst :=
+  match es with
+  | [] => if nl then wwrite_line w [] else w
+  | PV s :: r => pformat (wwrite w s true) r true
+  | PSemi :: r => pformat w r false
+  | PComma :: r => pformat (print_comma w) r false
+  end.
+Definition pprint (w : wst) (es : list pelem) : wst := pformat w es true.
+Definition open_w (f : list Z) : wst := mkW f 1 255.
+
+(* ------------------------------------------------------------------ INPUT$(n, #f): TextFileBase.read(n) *)
+Fixpoint cut_eof (l : list Z) : list Z :=
+  match l with [] => [] | b :: t => if b =? EOFB then [] else b :: cut_eof t end.
+Definition TWO : Z := -3.    (* _previous = output[-2:] is a two-byte string after a read of 2 or more *)
+Definition read_n (n : nat) (r : reader) : list Z * reader :=
+  let out := cut_eof (firstn n (rest r)) in
+  (out, mkR (skipn (length out) (rest r)) (last out NONE)
+            (if (length out <=? 1)%nat then cur r else TWO)).
+Definition input_str (n : nat) (r : reader) : res (list Z) * reader :=
+  let (out, r') := read_n n r in
+  (if (length out <? n)%nat then Err tf_err_INPUT_PAST_END else Ok out, r').
+
+(* ------------------------------------------------------------------ LOC
+   output: tell // 128.  input: max(1, (127 + tell - len(readahead)) // 128); with soft_linefeed tell minus
+   readahead is the number of bytes consumed; behind the NewlineWrapper it is the raw position after the k
+   bytes consumed, plus one when an LF absorbed after a CR has already been fetched (att: a read or peek was
+   attempted at the current position) *)
+Fixpoint raw_skip (raw : list Z) (lst k pos : Z) : Z * Z * list Z :=
+  match raw with
+  | [] => (pos, lst, [])
+  | b :: r => if k <=? 0 then (pos, lst, raw)
+              else if (lst =? CR) && (b =? LF) then raw_skip r b k (pos + 1)
+              else raw_skip r b (k - 1) (pos + 1)
+  end.
+Definition blocks (n : Z) : Z := Z.max 1 ((127 + n) / 128).
+Definition loc_in (soft : bool) (raw : list Z) (r : reader) (att : bool) : Z :=
+  let k := zlen (stream_of soft raw) - zlen (rest r) in
+  if soft then blocks k
+  else match raw_skip raw NONE k 0 with
+       | (pos, lst, rr) =>
+           let d := match rr with b :: _ => if att && (lst =? CR) && (b =? LF) then 1 else 0 | [] => 0 end in
+           blocks (pos + d)
+       end.
 
 (* ------------------------------------------------------------------ script interpreter (correspondence) *)
 
 Inductive op :=
 | OpOpenO | OpOpenA | OpOpenI | OpClose
-| OpWrite (items : list item) | OpPrint (l : list Z)
-| OpInput (kinds : list bool) | OpLineInput | OpEof | OpLof | OpLoc
+| OpWrite (items : list item) | OpPrint (l : list Z) | OpPrintE (es : list pelem) | OpWidth (n : Z)
+| OpInput (kinds : list bool) | OpLineInput | OpInputStr (n : nat) | OpEof | OpLof | OpLoc
 | OpRaw (b : list Z)       (* harness: put these bytes on disk (file must be closed) *)
 | OpDisk.                  (* harness: dump the disk file (file must be closed) *)
 
 Inductive handle :=
 | HClosed
-| HOut (f : list Z)                  (* O or A *)
-| HIn (raw : list Z) (r : reader).
+| HOut (w : wst)                                   (* O or A *)
+| HIn (raw : list Z) (r : reader) (att : bool).   (* att: see loc_in *)
 
 Record fstate := mkF { disk : option (list Z); hnd : handle }.
 
 Definition enc_word (w : list Z) : list Z := zlen w :: w.
 
-(* INPUT#n, v1, v2, ...: one input_entry per variable, the statement stops at the first error *)
-Fixpoint input_vars (kinds : list bool) (r : reader) : list Z * reader :=
+(* INPUT#n, v1, v2, ...: one input_entry per variable, the statement stops at the first error.
+   The flag: was a byte beyond the final position fetched (always, except after the 255 cut-off on a CR) *)
+Fixpoint input_vars (kinds : list bool) (r : reader) (att : bool) : list Z * reader * bool :=
   match kinds with
-  | [] => ([], r)
+  | [] => ([], r, att)
   | k :: ks =>
       match input_entry k r with
-      | Ok (w, c, r') => let (o, r'') := input_vars ks r' in (0 :: c :: enc_word w ++ o, r'')
-      | Err e => ([1; e], entry_err_reader k r)
-      | Host x => ([2; x], r)
-      | OutOfFuel => ([3], r)
+      | Ok (w, c, r') =>
+          match input_vars ks r' (negb ((zlen w =? 255) && (c =? CR))) with
+          | (o, r'', a) => (0 :: c :: enc_word w ++ o, r'', a)
+          end
+      | Err e => ([1; e], entry_err_reader k r, true)
+      | Host x => ([2; x], r, att)
+      | OutOfFuel => ([3], r, att)
       end
   end.
 
-(* outputs: [0;...] ok, [1;e] BASIC error, [3] out of fuel, [5] not modelled (LOC on a filtered input) *)
+(* outputs: [0;...] ok, [1;e] BASIC error, [3] out of fuel, [4] harness op on an open file,
+   [6] not modelled (INPUT$ of more than one byte through the NewlineWrapper: chunk-dependent, see K24b) *)
 Definition step (soft : bool) (o : op) (s : fstate) : list Z * fstate :=
   match o, hnd s with
-  | OpOpenO, HClosed => ([0], mkF (Some []) (HOut open_output))
+  | OpOpenO, HClosed => ([0], mkF (Some []) (HOut (open_w open_output)))
   | OpOpenA, HClosed =>
       let old := match disk s with Some d => d | None => [] end in
-      let f := open_append old in ([0], mkF (Some f) (HOut f))
+      let f := open_append old in ([0], mkF (Some f) (HOut (open_w f)))
   | OpOpenI, HClosed =>
       match disk s with
-      | Some d => ([0], mkF (disk s) (HIn d (open_input soft d)))
+      | Some d => ([0], mkF (disk s) (HIn d (open_input soft d) false))
       | None => ([1; tf_err_FILE_NOT_FOUND], s)
       end
   | (OpOpenO | OpOpenA | OpOpenI), _ => ([1; tf_err_FILE_ALREADY_OPEN], s)
-  | OpClose, HOut f => ([0], mkF (Some (close_out f)) HClosed)
+  | OpClose, HOut w => ([0], mkF (Some (close_out (wbytes w))) HClosed)
   | OpClose, _ => ([0], mkF (disk s) HClosed)
-  | OpWrite items, HOut f => ([0], mkF (disk s) (HOut (fwrite f (write_stmt items))))
-  | OpPrint l, HOut f => ([0], mkF (disk s) (HOut (fwrite f (print_line l))))
-  | (OpWrite _ | OpPrint _), HIn _ _ => ([1; tf_err_BAD_FILE_MODE], s)
-  | OpInput kinds, HIn raw r =>
-      let (o, r') := input_vars kinds r in (o, mkF (disk s) (HIn raw r'))
-  | OpLineInput, HIn raw r =>
+  | OpWrite items, HOut w => ([0], mkF (disk s) (HOut (wwrite_line w (join_comma (map fmt_item items)))))
+  | OpPrint l, HOut w => ([0], mkF (disk s) (HOut (pprint w [PV l])))
+  | OpPrintE es, HOut w => ([0], mkF (disk s) (HOut (pprint w es)))
+  | (OpWrite _ | OpPrint _ | OpPrintE _), HIn _ _ _ => ([1; tf_err_BAD_FILE_MODE], s)
+  | OpWidth n, HOut w =>
+      if (0 <=? n) && (n <=? 255) then ([0], mkF (disk s) (HOut (mkW (wbytes w) (wcol w) n))) else ([1; 5], s)
+  | OpWidth n, HIn _ _ _ => if (0 <=? n) && (n <=? 255) then ([0], s) else ([1; 5], s)
+  | OpInput kinds, HIn raw r att =>
+      match input_vars kinds r att with (o, r', a) => (o, mkF (disk s) (HIn raw r' a)) end
+  | OpLineInput, HIn raw r att =>
       match line_input r with
-      | Ok (l, r') => (0 :: enc_word l, mkF (disk s) (HIn raw r'))
-      | Err e => ([1; e], mkF (disk s) (HIn raw (snd (read_one r))))
+      | Ok (l, r') => (0 :: enc_word l, mkF (disk s) (HIn raw r' true))
+      | Err e => ([1; e], mkF (disk s) (HIn raw (snd (read_one r)) true))
       | Host x => ([2; x], s)
       | OutOfFuel => ([3], s)
       end
-  | OpEof, HIn _ r => ([0; enc_bool (eof r)], s)
+  | OpInputStr n, HIn raw r att =>
+      if (Z.of_nat n <? 1) || (255 <? Z.of_nat n) then ([1; 5], s)
+      else if negb soft && (1 <? Z.of_nat n) then ([6], s)
+      else match input_str n r with
+           | (Ok w, r') => (0 :: enc_word w, mkF (disk s) (HIn raw r' false))
+           | (Err e, r') => ([1; e], mkF (disk s) (HIn raw r' true))
+           | (_, r') => ([3], s)
+           end
+  | OpEof, HIn raw r _ => ([0; enc_bool (eof r)], mkF (disk s) (HIn raw r true))
   | (OpInput _ | OpLineInput | OpEof), HOut _ => ([1; tf_err_BAD_FILE_MODE], s)
-  | OpLof, HOut f => ([0; lof f], s)
-  | OpLof, HIn raw _ => ([0; lof raw], s)
-  | OpLoc, HOut f => ([0; loc_out f], s)
-  | OpLoc, HIn raw r =>
-      if soft then ([0; Z.max 1 ((127 + (zlen raw - zlen (rest r))) / 128)], s) else ([5], s)
+  | OpInputStr n, HOut _ =>
+      if (Z.of_nat n <? 1) || (255 <? Z.of_nat n) then ([1; 5], s) else ([1; tf_err_BAD_FILE_MODE], s)
+  | OpLof, HOut w => ([0; lof (wbytes w)], s)
+  | OpLof, HIn raw _ _ => ([0; lof raw], s)
+  | OpLoc, HOut w => ([0; loc_out (wbytes w)], s)
+  | OpLoc, HIn raw r att => ([0; loc_in soft raw r att], s)
   | OpRaw b, HClosed => ([0], mkF (Some b) HClosed)
   | OpDisk, HClosed =>
       (match disk s with Some d => 0 :: enc_word d | None => [1; tf_err_FILE_NOT_FOUND] end, s)
   | (OpRaw _ | OpDisk), _ => ([4], s)
+  | OpInputStr n, HClosed =>
+      if (Z.of_nat n <? 1) || (255 <? Z.of_nat n) then ([1; 5], s) else ([1; tf_err_BAD_FILE_MODE], s)
   | _, HClosed => ([1; tf_err_BAD_FILE_NUMBER], s)
   end.
 
